@@ -768,6 +768,7 @@ def do_verify(options):
     if not repofiles:
         raise NoFiles('No files in repository')
     datfile = os.path.splitext(repofiles[0])[0] + '.dat'
+    listed = set()
     with open(datfile) as fp:
         for line in fp:
             fn, startpos, endpos, sum = line.split()
@@ -775,6 +776,7 @@ def do_verify(options):
             endpos = int(endpos)
             filename = os.path.join(options.repository,
                                     os.path.basename(fn))
+            listed.add(filename)
             expected_size = endpos - startpos
             log("Verifying %s", filename)
             try:
@@ -797,6 +799,12 @@ def do_verify(options):
                     raise VerificationFail(
                         f"{filename} has checksum {actual_sum}"
                         f"{when_uncompressed} instead of {sum}")
+    # Every file that a recovery would use has to belong to this chain:
+    # incrementals of a later chain whose full backup is missing do not.
+    for filename in repofiles:
+        if filename not in listed:
+            raise VerificationFail(
+                "{} is not listed in {}".format(filename, datfile))
 
 
 def get_checksum_and_size_of_gzipped_file(filename, quick):
